@@ -41,20 +41,29 @@ Record cfg := mkCfg {
   fix_f9 : bool;     (* stream watchers also fire when the connection generation is not theirs *)
   fix_f10 : bool;    (* reconnect discards the new connection and returns ErrConnectionClosed instead of panicking on the failed CAS *)
   fix_leak : bool;   (* stream supervisors wait with WaitUntilOrClosed *)
-  fix_f19 : bool     (* closeWithError registers the closed event also when its close request fails *)
+  fix_f19 : bool;    (* closeWithError registers the closed event also when its close request fails *)
+  ctx_first : bool   (* NOT in /repo: waitUntil looks at ctx.Done() BEFORE it consults the closed-status hook
+                        (the order matters: the e2e senders wait on a context that a watcher cancels as soon as
+                        the status is Closed) *)
 }.
-Definition faithful : cfg := mkCfg true true true true true.     (* /repo as it is now *)
-Definition former : cfg := mkCfg false false false false false.  (* /repo before the fix commits *)
+Definition faithful : cfg := mkCfg true true true true true false.     (* /repo as it is now *)
+Definition former : cfg := mkCfg false false false false false false.  (* /repo before the fix commits *)
 
 (* one evaluation of the loop of waitUntil(ctx, target, hooker): return nil / return the hooker's
    error / cond.Wait().  The hooker of WaitUntilOrClosed answers "closed" for connStatusClosed;
    the former code handed it [status] - the TARGET - not e.current (F5); now e.current. *)
-Inductive wobs := WRet | WErr | WWait.
+Inductive wobs := WRet | WErr | WCtx | WWait.
 Definition closed_hooker (c : cstatus) : bool := cs_eqb c Closed.
-Definition wait_until (fixed : bool) (target cur : cstatus) (hook : bool) : wobs :=
-  if cs_eqb target cur then WRet
-  else if hook && closed_hooker (if fixed then cur else target) then WErr
-  else WWait.
+(* [ctxdone]: the caller's context is already done when the loop looks.  In the loop body the code
+   consults the hooker FIRST and the context SECOND; [ctxfirst] swaps the two. *)
+Definition wait_until (fixed ctxfirst : bool) (target cur : cstatus) (hook ctxdone : bool) : wobs :=
+  if cs_eqb target cur then (if ctxdone then WCtx else WRet)       (* the select after the loop *)
+  else if ctxfirst then
+    (if ctxdone then WCtx
+     else if hook && closed_hooker (if fixed then cur else target) then WErr else WWait)
+  else
+    (if hook && closed_hooker (if fixed then cur else target) then WErr
+     else if ctxdone then WCtx else WWait).
 
 (* ------------------------------------------------------------------------------------------ *)
 (* state *)
@@ -308,7 +317,10 @@ Definition wake_step (c : conn) (k : N) : conn * list out :=
   | Some q =>
       match q_phase q with
       | QWait =>
-          match wait_until (fix_f5 (c_cfg c)) Connected (c_status c) true with
+          (* c.call() hands send() a WithCloseStatus context: a watcher cancels it as soon as the status is
+             Closed, so by the time the loop looks it may already be done - the worst case is taken *)
+          match wait_until (fix_f5 (c_cfg c)) (ctx_first (c_cfg c)) Connected (c_status c) true
+                           (is_closed c && closectx (q_kind q)) with
           | WRet =>
               if writable c then
                 (set_reqs c (upd_q k (fun q => set_qphase q (if is_call (q_kind q) then QAck (c_gen c) else QFlight (c_gen c))) (c_reqs c)),
@@ -318,10 +330,8 @@ Definition wake_step (c : conn) (k : N) : conn * list out :=
                 if snd r then (set_status c (fst r), [])
                 else (set_reqs c (upd_q k (fun q => set_qphase q QDone) (c_reqs c)), [ORet k RConnClosed])
           | WErr => (set_reqs c (upd_q k (fun q => set_qphase q QDone) (c_reqs c)), [ORet k RConnClosed])
-          | WWait =>
-              if closectx (q_kind q) && is_closed c
-              then (set_reqs c (upd_q k (fun q => set_qphase q QDone) (c_reqs c)), [ORet k RCanceled])
-              else (c, [])
+          | WCtx => (set_reqs c (upd_q k (fun q => set_qphase q QDone) (c_reqs c)), [ORet k RCanceled])
+          | WWait => (c, [])
           end
       | _ => (c, [])
       end
@@ -495,10 +505,11 @@ Inductive api :=
 
 (* send() entered on state c with a context that has a deadline (closectx: wrapped by WithCloseStatus) *)
 Definition send_entry (c : conn) (cctx : bool) : rclass :=
-  match wait_until (fix_f5 (c_cfg c)) Connected (c_status c) true with
+  match wait_until (fix_f5 (c_cfg c)) (ctx_first (c_cfg c)) Connected (c_status c) true (is_closed c && cctx) with
   | WRet => RNil
   | WErr => RConnClosed
-  | WWait => if cctx && is_closed c then RCanceled else RDeadline
+  | WCtx => RCanceled
+  | WWait => RDeadline
   end.
 
 (* conn-level entries; [RNil] = the call proceeds to the wire *)
